@@ -34,6 +34,10 @@ def pivot():
     S.append(EnumSpec("IntOnly", [U("A", props=[[("n", 1)]]), U("B", props=[[("n", 0)], [("m", -1)]])], derives=d, note="only integer literals in the whole enum"))
     S.append(EnumSpec("DisLeak", [U("H", disabled=True, props=[[("depth", 7), ("tag", "h"), ("on", True)]]), U("Circle"), U("Sq", props=[[("tag", "s")]])],
                       derives=d, note="a disabled variant WITH props directly before an enabled variant WITHOUT props"))
+    S.append(EnumSpec("Uni", [U("A", props=[[("gr\u00f6\u00dfe", 42), ("ab", 1)]]), U("B", props=[[("stra\u00dfe", "s")], [("x", "y")]])], derives=d,
+                      note="non-ASCII identifier keys that are the longest key of their type"))
+    S.append(EnumSpec("CiFlag", [U("A", props=[[("symbol", "m"), ("Symbol", "M")]]), U("B", props=[[("unit", 1)]], aci=False), U("C", aci=True, props=[[("k", True)]])],
+                      derives=d, aci=True, note="ascii_case_insensitive (enum and variant level) must not affect property lookups"))
     S.append(EnumSpec("Kw", [
         U("A", props=[[("type", "t"), ("fn", 1), ("match", True)]]),
         U("B", props=[[("r#type", "raw")]] if False else [[("self", "s")], [("type", 2)]]),
